@@ -26,4 +26,12 @@ if ! $GO build $MODFLAG -overlay "$SCR/ov/overlay.json" -o "$SCR/vmc" ./cmd/vmc 
   cat "$SCR/build.log"; echo "INFRA-ERROR build of vmc against $REPO failed"; exit 2
 fi
 export VERIF_VMC="$SCR/vmc"
+if [ "$ID" = "C17" ]; then
+  # racepass: the same harness bodies, free-running, under the race detector (auxiliary to the exhaustive exploration)
+  if $GO build $MODFLAG -race -overlay "$SCR/ov/overlay.json" -o "$SCR/vmc-race" ./cmd/vmc >"$SCR/build-race.log" 2>&1; then
+    export VERIF_VMC_RACE="$SCR/vmc-race"
+  else
+    cat "$SCR/build-race.log"; echo "INFRA-ERROR -race build of vmc failed"; exit 2
+  fi
+fi
 "$SCR/vmc" "$ID" "$TIER"
